@@ -9,14 +9,16 @@ model keeps the node's three fixed arrays slot by slot: `List (Option _)` of the
 (`Gen.Tree.keysLen`, `valuesLen`, `childrenLen`), `none` being the zero value (a nil pointer for
 pointer-typed keys, values and for every child slot).
 
-Three layers, each composed from the one before exactly as `btree.go` composes them:
+Four layers, each composed from the one before exactly as `btree.go` composes them:
 
 1. the array primitives (`setSlot` = `a[i] = x`, `copySlots` = `copy`, `insertOne`, `removeOne`,
    `clearFrom` = `xslices.Clear(a[lo:])`, the ascending / descending fill loops of `overfill`);
 2. the node-level operations on one, two or three nodes (`leafInsert`, `setValue`, `leafRemove`,
    `removeRightmostAt`, `replaceEntry`, `splitNode` (the amalgam, both halves, the three `Clear`
    calls), `newRootNode`, `parentInsert`, `mergeNodes`, `rotateRightNodes`, `rotateLeftNodes`);
-3. a pointer-level heap of such nodes (`Heap`, node identity = allocation number, parent pointers)
+3. node-level histories (`NodeOp`, `applyOp`, `runOps`): arbitrary sequences of the node-level
+   operations on a family of live nodes, each within its documented precondition;
+4. a pointer-level heap of such nodes (`Heap`, node identity = allocation number, parent pointers)
    with `Put` / `Delete` transliterated statement by statement, loops bounded by fuel. This layer is
    what the correspondence harness runs against the real `tree.Map[*int,*int]`, raw slot by raw slot.
 
@@ -300,6 +302,118 @@ def rotateLeftNodes (parent left right : SNode K V C) (idx : Nat) :
   pure ({ parent with keys := pkeys, vals := pvals },
         { left with keys := lkeys, vals := lvals, kids := lkids, n := left.n + 1 },
         { right with keys := rkeys, vals := rvals, kids := rkids, n := right.n - 1 }, child)
+
+
+/-! ## node-level histories
+
+The family of live nodes (addressed by position) under arbitrary sequences of the node-level
+operations, each applied within the precondition its Go function documents ("Assumes left and right
+are siblings and right is not full", "either left or right has n < minKVs and the other n == minKVs",
+`overfill` on a full node, `insertIntoLeaf` on a non-full leaf …). `Put` and `Delete` only ever
+compose these steps on live nodes (that composition is `Heap.put` / `Heap.delete` above, checked slot
+by slot against the real code), so an invariant of every such history is an invariant of the tree. -/
+
+inductive NodeOp (K V C : Type) where
+  /-- `insertIntoLeaf` on the non-full leaf `i` -/
+  | leafInsert (i idx : Nat) (k : K) (v : V)
+  /-- `Put` on a present key -/
+  | setValue (i idx : Nat) (v : V)
+  /-- `Delete`, leaf branch -/
+  | leafRemove (i idx : Nat)
+  /-- `removeRightmost` arriving at leaf `i` -/
+  | removeRightmost (i : Nat)
+  /-- `Delete`, inner branch: the replacement entry is written at `idx` of node `i` -/
+  | replaceEntry (i idx : Nat) (k : K) (v : V)
+  /-- one round of `overfill` on the full node `i`; the right half joins the family -/
+  | split (i e : Nat) (k : K) (v : V) (afterK : Option C)
+  /-- the new root of `overfill` joins the family -/
+  | newRoot (k : K) (v : V) (left right : C)
+  /-- `overfill`, parent `i` not full -/
+  | parentInsert (i idx : Nat) (k : K) (v : V) (right : C)
+  /-- `mergeTwo(l, r)` below parent `p`; the right node leaves the family (it is unlinked) -/
+  | mergeTwo (p l r idx : Nat)
+  | rotateRight (p l r idx : Nat)
+  | rotateLeft (p l r idx : Nat)
+  /-- a node becomes unreachable (the collapsed root) -/
+  | drop (i : Nat)
+
+/-- one step; `none` = the operation is not enabled (precondition violated) or panics -/
+def applyOp (fam : List (SNode K V C)) : NodeOp K V C → Option (List (SNode K V C))
+  | .leafInsert i idx k v => do
+    let x ← fam[i]?
+    if x.isLeaf ∧ (idx : Int) ≤ x.n ∧ x.n < keysCap then
+      let x' ← leafInsert x idx k v
+      pure (fam.set i x')
+    else none
+  | .setValue i idx v => do
+    let x ← fam[i]?
+    if (idx : Int) < x.n then
+      let x' ← setValue x idx v
+      pure (fam.set i x')
+    else none
+  | .leafRemove i idx => do
+    let x ← fam[i]?
+    if x.isLeaf ∧ (idx : Int) < x.n then
+      let x' ← leafRemove x idx
+      pure (fam.set i x')
+    else none
+  | .removeRightmost i => do
+    let x ← fam[i]?
+    if x.isLeaf ∧ 0 < x.n then
+      let (_, _, x') ← removeRightmostAt x
+      pure (fam.set i x')
+    else none
+  | .replaceEntry i idx k v => do
+    let x ← fam[i]?
+    if (idx : Int) < x.n then
+      let x' ← replaceEntry x idx (some k) (some v)
+      pure (fam.set i x')
+    else none
+  | .split i e k v afterK => do
+    let x ← fam[i]?
+    if x.n = keysCap ∧ e ≤ keysCap ∧ (x.isLeaf ∨ afterK.isSome) then
+      let (l, _, _, r) ← splitNode x e (some k) (some v) afterK
+      pure (fam.set i l ++ [r])
+    else none
+  | .newRoot k v l r => do
+    let x ← newRootNode (some k) (some v) l r
+    pure (fam ++ [x])
+  | .parentInsert i idx k v r => do
+    let x ← fam[i]?
+    if ¬ x.isLeaf ∧ (idx : Int) ≤ x.n ∧ x.n < keysCap then
+      let x' ← parentInsert x idx (some k) (some v) r
+      pure (fam.set i x')
+    else none
+  | .mergeTwo p l r idx => do
+    let xp ← fam[p]?
+    let xl ← fam[l]?
+    let xr ← fam[r]?
+    if p ≠ l ∧ l ≠ r ∧ p ≠ r ∧ ¬ xp.isLeaf ∧ (idx : Int) < xp.n ∧ xl.isLeaf = xr.isLeaf ∧ xl.n + 1 + xr.n ≤ keysCap then
+      let (p', l', _) ← mergeNodes xp xl xr idx
+      pure (((fam.set p p').set l l').eraseIdx r)
+    else none
+  | .rotateRight p l r idx => do
+    let xp ← fam[p]?
+    let xl ← fam[l]?
+    let xr ← fam[r]?
+    if p ≠ l ∧ l ≠ r ∧ p ≠ r ∧ (idx : Int) < xp.n ∧ xl.isLeaf = xr.isLeaf ∧ 0 < xl.n ∧ xr.n < keysCap then
+      let (p', l', r', _) ← rotateRightNodes xp xl xr idx
+      pure (((fam.set p p').set l l').set r r')
+    else none
+  | .rotateLeft p l r idx => do
+    let xp ← fam[p]?
+    let xl ← fam[l]?
+    let xr ← fam[r]?
+    if p ≠ l ∧ l ≠ r ∧ p ≠ r ∧ 0 < idx ∧ (idx : Int) ≤ xp.n ∧ xl.isLeaf = xr.isLeaf ∧ 0 < xr.n ∧ xl.n < keysCap then
+      let (p', l', r', _) ← rotateLeftNodes xp xl xr idx
+      pure (((fam.set p p').set l l').set r r')
+    else none
+  | .drop i => some (fam.eraseIdx i)
+
+/-- a history from `newBtree` (one empty root) -/
+def runOps (fam : List (SNode K V C)) : List (NodeOp K V C) → Option (List (SNode K V C))
+  | [] => some fam
+  | op :: ops => (applyOp fam op).bind (runOps · ops)
 
 /-! ## the heap of nodes: `Put` / `Delete` statement by statement -/
 
